@@ -1,7 +1,7 @@
 (* Props/C12.v — property C12: a glob set answers like its member globs; globs mean what is documented.
    Only statements; every proof is one `exact`.  The Check lines pin the statements. *)
 From RG Require Import Base.Bytes Model.Glob Model.GlobSet Spec.GlobSem Spec.GlobSetSem
-  Proofs.GlobStrategyProofs Proofs.GlobSetProofs Proofs.GlobParseProofs.
+  Proofs.GlobStrategyProofs Proofs.GlobSetProofs Proofs.GlobSetIsMatchProofs Proofs.GlobParseProofs.
 
 (* 1. every match strategy answers as the glob's regex: for all token lists (parser-produced or not),
       all four options, all paths (arbitrary bytes), the strategy MatchStrategy::new selects, evaluated
@@ -44,6 +44,14 @@ Theorem set_eq_members :
 Proof. exact set_eq_members_proof. Qed.
 Print Assumptions set_eq_members.
 
+(* 3b. GlobSet::is_match (the strategies' own is_match functions: hash look-ups, Aho-Corasick scans with the
+       start/end test, per-extension regex lists, the regex set) is true exactly when some member glob matches. *)
+Theorem set_is_match_eq_exists :
+  forall (gs : list glob) (p : bytes),
+    set_is_match re_spec gs p = existsb (fun g => tmatch (g_opts g) (g_tokens g) p) gs.
+Proof. exact set_is_match_eq_exists_proof. Qed.
+Print Assumptions set_is_match_eq_exists.
+
 (* 4. the parser is total and never reaches one of its unwrap()/assert! panics: for every option set and
       every glob text it returns tokens or one of the six error kinds within the fuel S (length glob). *)
 Theorem parse_total_never_panics :
@@ -78,3 +86,6 @@ Check set_eq_members :
            (seq 0 (length gs)).
 Check parse_total_never_panics :
   forall (o : gopts) (g : list N), exists r, build o g = Some r /\ r <> Err Panic.
+Check set_is_match_eq_exists :
+  forall (gs : list glob) (p : bytes),
+    set_is_match re_spec gs p = existsb (fun g => tmatch (g_opts g) (g_tokens g) p) gs.
